@@ -421,7 +421,7 @@ func execC18(c CaseC18) *Outcome {
 			left = append(left, g)
 		}
 		return len(leftOfClosed(left, p1)) == 0
-	}, 8*time.Second) {
+	}, 20*time.Second) {
 		l := leftOfClosed(left, p1)
 		return fail("%s (%s): %d goroutine(s) started by go-orbit-db are still alive after the instance was closed, e.g.:\n%s", c.Action, summaryC18(c), len(l), clipStack(l[0].Stack))
 	}
